@@ -407,8 +407,13 @@ def sum_axioms(store, core_terms, all_terms, pairwise, wide, goal_terms=None):
     return ax, len(every)
 
 
-def prove(ob, timeout_ms=20000, global_axioms=(), want_model=False):
+LAST_QUERY = []          # assertions of the last refuting query (filled when prove(..., keep_query=True))
+KEEP_QUERY = [False]
+
+
+def prove(ob, timeout_ms=20000, global_axioms=(), want_model=False, keep_query=False):
     """Discharge one Obligation.  Returns Result."""
+    KEEP_QUERY[0] = bool(keep_query)
     t0 = time.time()
     from .sym import Stale
     if isinstance(ob.goal, Stale):
@@ -695,6 +700,8 @@ def _prove_one(ground, foralls, guards, goal, timeout_ms, want_model):
         if r == 'sat':
             if not final:
                 continue
+            if KEEP_QUERY[0]:
+                LAST_QUERY[:] = list(s.assertions())
             return 'refuted', 'sat: the negated obligation is satisfiable', m
         last = ('unknown', 'unknown: %s' % (m or 'timeout'), None)
     # second pass: the (smaller) intermediate queries that only ran out of their share of the time
